@@ -87,7 +87,44 @@ def run_c05(chk, F, tier):
     if FORMAT_CHUNK not in F.bodies:
         raise RuleBroken("format_chunk not found")
     check_core(chk, F, "R05", FORMAT_CHUNK, "reformatted", 3)
-    chk.explanation = "Dominance + guard-edge analysis at every call site of the formatter core, obligations propagated through chunk pass-through wrappers."
+    # R05c: source text is appended verbatim
+    import callgraph
+    chk.rule("R05c", "Printer::push_text / push_syntax_text (the only way token and comment text reaches the output) never reach an operation that "
+                     "removes characters from the output buffer: trimming belongs to the printer's own line ends (push_newline)")
+    PR = FMT + "::printer::Printer"
+    SHRINK = ("String::truncate", "String::pop", "String::clear", "String::drain", "String::remove", "String::replace_range", "String::retain",
+              "String::split_off")
+    cg = callgraph.CallGraph(F)
+    shrinkers = {}
+    for b in F.bodies.values():
+        if b.crate != FMT or is_test(b.id):
+            continue
+        for bb, c in b.calls():
+            if name(c).endswith(SHRINK) and c["a"] and c["a"][0][0] in ("c", "m"):
+                l = c["a"][0][1][0]
+                fld = None
+                for blk in b.blocks:
+                    for st in blk[1]:
+                        if st[0] == "a" and st[1] == [l] and st[2][0] == "ref":
+                            for e in st[2][2][1:]:
+                                if isinstance(e, list) and e[0] == "f":
+                                    fld = e[2]
+                if fld == "output":
+                    shrinkers.setdefault(b.id, []).append(c["l"])
+    chk.floor("functions that shrink the printer output", len(shrinkers), 1)
+    nsrc = 0
+    for entry in (PR + "::push_text", PR + "::push_syntax_text"):
+        if entry not in F.bodies:
+            raise RuleBroken("%s not found" % entry)
+        nsrc += 1
+        reach = cg.reachable([entry])
+        bad = sorted(x for x in reach if x in shrinkers)
+        chk.check(not bad, "R05c", "verbatim@%s" % entry.split("::")[-1],
+                  "%s reaches %s, which removes characters from the output buffer: text of a multi-line token (long string, long comment) pushed "
+                  "as one chunk loses the spaces before its inner newlines, so the token sequence of the output differs from the input"
+                  % (entry.split("::")[-1], [x.split("::")[-1] for x in bad]), F.bodies[entry].loc(),
+                  witness={"shrinking_functions": bad}, sample={"rule": "R05c", "entry": entry.split("::")[-1], "verdict": "append-only"})
+    chk.explanation = "Dominance + guard-edge analysis at every call site of the formatter core, obligations propagated through chunk pass-through wrappers; who-may-shrink on the printer's output buffer."
 
 
 def run_c07(chk, F, tier):
